@@ -201,7 +201,12 @@ func cmdCheck(args []string) int {
 		}
 		fr := verifyFunction(L, db, fn, s, verifyOpts{covers: true, sweep: s.Sweep})
 		res.Funcs = append(res.Funcs, fr)
+		pkgDir := ""
+		if fn.Pkg != nil {
+			pkgDir = strings.TrimPrefix(strings.TrimPrefix(fn.Pkg.Pkg.Path(), "github.com/crossplane/crossplane"), "/")
+		}
 		for _, o := range fr.Obls {
+			o.PkgDir = pkgDir
 			if hasProp(o.Props, *prop) || (len(o.Props) == 0 && (o.Kind == "cover" || o.Kind == "anchor" || o.Kind == "safe" || o.Label == "auto-range-bound")) {
 				all = append(all, o)
 			}
@@ -330,7 +335,7 @@ func cmdCheck(args []string) int {
 				fmt.Fprintf(os.Stderr, "      gen: %s\n", o.GenErr)
 			}
 			if o.Status == "unknown" || o.Status == "failed" || o.Status == "vacuous" {
-				fmt.Fprintf(os.Stderr, "      %s\n      %s\n", o.Detail, o.File)
+				fmt.Fprintf(os.Stderr, "      %s\n      %s\n", trunc(o.Detail, 240), o.File)
 			}
 		}
 		for _, f := range res.Funcs {
